@@ -7,6 +7,7 @@ import (
 	"math/big"
 	"math/bits"
 	"runtime"
+	"runtime/debug"
 	"strings"
 	"sync/atomic"
 	"testing"
@@ -145,6 +146,10 @@ type c25Batch struct {
 	genesis []*CNode
 	acc     []*CNode
 	thr     int
+	// history part: the last finalized mint is batch-gap-1, so the mint of
+	// `batch` covers gap+1 batches; validate selects the validate-only evaluation
+	gap      uint64
+	validate bool
 }
 
 type c25Ctx struct{ b []*c25Batch }
@@ -157,33 +162,44 @@ func c25MintTime(epoch, batch uint64) uint64 {
 // through the real LockMintInput / WriteTransaction / WriteSnapshot path when it
 // is not the built-in legacy ending), so that the real
 // checkUniversalMintPossibility yields exactly the single batch amount.
-func c25NewBatch(batch uint64) (*c25Batch, error) {
+func c25NewBatch(batch uint64) (*c25Batch, error) { return c25NewBatchGap(batch, 0) }
+
+// c25NewBatchGap: the last finalized mint is batch-gap-1 (gap skipped days), so
+// the real checkUniversalMintPossibility yields a (gap+1)-batch mint.
+func c25NewBatchGap(batch, gap uint64) (*c25Batch, error) {
 	m, err := newMCNode(mcNet7, 0, "")
 	if err != nil {
 		return nil, err
 	}
 	node := m.Node
-	b := &c25Batch{m: m, batch: batch, ts: c25MintTime(node.Epoch, batch)}
-	if batch-1 > KernelNetworkLegacyEnding {
+	b := &c25Batch{m: m, batch: batch, ts: c25MintTime(node.Epoch, batch), gap: gap}
+	old := batch - gap - 1
+	if old > KernelNetworkLegacyEnding {
 		last, err := m.Store.ReadLastConsensusSnapshot()
 		if err != nil || last == nil {
 			return nil, fmt.Errorf("no consensus snapshot: %v", err)
 		}
-		prev := mintBatchSize(batch - 1)
+		prev := mintBatchSize(old)
 		tx := common.NewTransactionV5(common.XINAssetId)
-		tx.AddUniversalMintInput(batch-1, prev)
+		tx.AddUniversalMintInput(old, prev)
 		tx.References = last.Transactions
 		cu := fixc.Pub(mcNet7.Custodian)
 		tx.AddScriptOutput([]*common.Address{&cu}, common.NewThresholdScript(1), prev, make([]byte, 64))
-		_, err = m.Store.VerifFinalize(mcNet7.NodeIds[0], c25MintTime(node.Epoch, batch-1), true, tx.AsVersioned())
+		_, err = m.Store.VerifFinalize(mcNet7.NodeIds[0], c25MintTime(node.Epoch, old), true, tx.AsVersioned())
 		if err != nil {
-			return nil, fmt.Errorf("install mint %d: %v", batch-1, err)
+			return nil, fmt.Errorf("install mint %d: %v", old, err)
 		}
+	} else if old < KernelNetworkLegacyEnding {
+		return nil, fmt.Errorf("batch %d gap %d reaches below the legacy ending", batch, gap)
 	}
-	if got := node.lastMintDistribution().Batch; got != batch-1 {
-		return nil, fmt.Errorf("last mint batch %d, want %d", got, batch-1)
+	if got := node.lastMintDistribution().Batch; got != old {
+		return nil, fmt.Errorf("last mint batch %d, want %d", got, old)
 	}
-	b.amount = c25Units(mintBatchSize(batch))
+	// the statement's amount: the sum of the single batch amounts
+	b.amount = new(big.Int)
+	for i := old + 1; i <= batch; i++ {
+		b.amount.Add(b.amount, c25Units(mintBatchSize(i)))
+	}
 	b.cust, err = m.Store.ReadCustodian(b.ts)
 	if err != nil || b.cust == nil {
 		return nil, fmt.Errorf("custodian: %v", err)
@@ -261,7 +277,7 @@ func (x *c25Ctx) close() {
 
 // ---------------------------------------------------------------- oracle
 
-var c25Modes = []string{"lead", "sign", "both", "alt"}
+var c25Modes = []string{"lead", "sign", "both", "alt", "mix"}
 
 // c25Pair maps a menu value to the (lead, sign) counters of node idx.
 func c25Pair(mode, idx int, v uint64) [2]uint64 {
@@ -272,11 +288,23 @@ func c25Pair(mode, idx int, v uint64) [2]uint64 {
 		return [2]uint64{0, v}
 	case 2:
 		return [2]uint64{v, v}
+	case 3:
+		if idx%2 == 0 {
+			return [2]uint64{v, 0}
+		}
+		return [2]uint64{0, v}
 	}
-	if idx%2 == 0 {
+	// mix: every kind of node in one vector — leader only (lead>0, sign=0),
+	// signer only (lead=0, sign>0), both equal, both different; v=0 gives (0,0)
+	switch idx % 4 {
+	case 0:
 		return [2]uint64{v, 0}
+	case 1:
+		return [2]uint64{0, v}
+	case 2:
+		return [2]uint64{v, v}
 	}
-	return [2]uint64{0, v}
+	return [2]uint64{v, 2 * v}
 }
 
 // c25Weight is the statement's notion of a node's work in 1e-8 units: a led
@@ -301,6 +329,8 @@ type c25Case struct {
 	Batch  uint64   `json:"batch"`
 	Ready  [2]int   `json:"ready_works_spaces"`
 	Base   string   `json:"direct_base,omitempty"`
+	Gap    uint64   `json:"skipped_batches,omitempty"`
+	Step   string   `json:"history_step,omitempty"`
 }
 
 // monotone: W_i > W_j => out_i >= out_j, W_i == W_j => out_i == out_j.
@@ -402,7 +432,7 @@ func (r *c25Run) build(b *c25Batch, cs c25Case, ws []*big.Int, valid, readyW, re
 		return what
 	}
 	var tx *common.VersionedTransaction
-	p, site := c25CatchSite(func() { tx = node.buildUniversalMintTransaction(b.cust, b.ts, false) })
+	p, site := c25CatchSite(func() { tx = node.buildUniversalMintTransaction(b.cust, b.ts, b.validate) })
 	c.Eval(1)
 	pre := valid >= b.thr && readyW >= b.thr && readyS >= b.thr && readyW == readyS
 	if p != nil {
@@ -422,8 +452,11 @@ func (r *c25Run) build(b *c25Batch, cs c25Case, ws []*big.Int, valid, readyW, re
 		case !pre:
 			c.Outcome("nomint:aggregators-not-ready")
 		default:
-			c.Outcome("nomint:unexpected")
-			c.Stricter("no mint transaction although valid >= threshold and aggregators ready")
+			// >= threshold nodes have positive work (1.2*lead+sign) and the
+			// aggregators are ready, yet the distribution is refused: some node's
+			// work is valued as zero (more work, less reward — here: no reward)
+			c.Outcome("nomint:refused-with-enough-work")
+			c.Violation(key("dist:refused-with-enough-work"), fmt.Sprintf("no mint transaction although %d >= threshold %d nodes have positive work and the aggregators are ready (n=%d batch %d): a node with work is treated as idle", valid, b.thr, n, b.batch), cs)
 		}
 		return nil
 	}
@@ -498,8 +531,8 @@ func (r *c25Run) direct(b *c25Batch, cs c25Case, base common.Integer, ws []*big.
 	}
 	if err != nil {
 		if valid >= b.thr {
-			c.Outcome("direct:error-unexpected")
-			c.Stricter("distributeKernelMintByWorks refuses although valid >= threshold")
+			c.Outcome("direct:refused-with-enough-work")
+			c.Violation(key("distribute:refused-with-enough-work"), fmt.Sprintf("distributeKernelMintByWorks refuses (%v) although %d >= threshold %d nodes have positive work (n=%d)", err, valid, b.thr, n), cs)
 		} else {
 			c.Outcome("direct:error:valid<threshold")
 		}
@@ -591,7 +624,7 @@ func c25Schedule(c *verifmc.Check) int {
 	horizon := MintYearDays * years
 	vals := make([]*big.Int, horizon+1)
 	sites := make([]string, horizon+1)
-	c.ParallelN(years+1, "schedule singles", func(_, y int) {
+	complete := c.ParallelN(years+1, "schedule singles", func(_, y int) {
 		for b := y * MintYearDays; b < (y+1)*MintYearDays && b <= horizon; b++ {
 			if b == 0 {
 				continue
@@ -659,8 +692,10 @@ func c25Schedule(c *verifmc.Check) int {
 	c.Set("schedule_last_positive_year", lastPositive/MintYearDays)
 	c.Set("schedule_cumulative_units", cum.String())
 	c.Set("schedule_pool_units", pool.String())
-	c.Require(lastPositive > 2*KernelNetworkLegacyEnding, "positive schedule too short: %d", lastPositive)
-	c.Require(defined > lastPositive, "no zero tail reached inside the horizon (defined %d, last positive %d)", defined, lastPositive)
+	if complete {
+		c.Require(lastPositive > 2*KernelNetworkLegacyEnding, "positive schedule too short: %d", lastPositive)
+		c.Require(defined > lastPositive, "no zero tail reached inside the horizon (defined %d, last positive %d)", defined, lastPositive)
+	}
 
 	if c.Thorough() {
 		// first and last batch of every year up to the code's own horizon
@@ -714,7 +749,14 @@ func c25Schedule(c *verifmc.Check) int {
 	var wins []window
 	wins = append(wins, window{0, 2 * w}, window{KernelNetworkLegacyEnding - w, KernelNetworkLegacyEnding + w})
 	lastYear := lastPositive/MintYearDays + 1 // the boundary into the zero tail is included
+	var boundaries []int
 	for y := 1; y <= lastYear; y++ {
+		// quick: every boundary of the first 60 years, every 6th afterwards and
+		// the last three (incl. the one into the zero tail); thorough: all
+		if !c.Thorough() && y > 60 && y%6 != 0 && y < lastYear-2 {
+			continue
+		}
+		boundaries = append(boundaries, y)
 		lo, hi := y*MintYearDays-w, y*MintYearDays+w
 		if hi > defined {
 			hi = defined
@@ -722,8 +764,9 @@ func c25Schedule(c *verifmc.Check) int {
 		wins = append(wins, window{lo, hi})
 	}
 	c.Set("multi_windows", len(wins))
+	c.Set("multi_year_boundaries", boundaries)
 	c.Set("multi_window_half_width", w)
-	c.ParallelN(len(wins), "multi windows", func(_, wi int) {
+	complete = c.ParallelN(len(wins), "multi windows", func(_, wi int) {
 		win := wins[wi]
 		for o := win.lo; o < win.hi; o++ {
 			for b := o + 1; b <= win.hi && b-o <= 40; b++ {
@@ -759,7 +802,9 @@ func c25Schedule(c *verifmc.Check) int {
 			}
 		}
 	})
-	c.Require(c.OutcomeCount("multi:across-year") > 1000 && c.OutcomeCount("multi:within-year") > 1000, "multi-batch windows vacuous")
+	if complete {
+		c.Require(c.OutcomeCount("multi:across-year") > 1000 && c.OutcomeCount("multi:within-year") > 1000, "multi-batch windows vacuous")
+	}
 	return lastPositive
 }
 
@@ -846,25 +891,145 @@ func (r *c25Run) tie(n int) {
 	}
 }
 
+// ---------------------------------------------------------------- history
+
+// c25HistoryCases: gaps j (skipped days) x batch positions: from the built-in
+// legacy ending, inside a year, straddling the year boundaries 1825 and 2190,
+// right after a boundary, and in the far tail.
+func c25HistoryCases() [][2]uint64 {
+	var out [][2]uint64
+	for _, j := range []uint64{0, 1, 2, 5} {
+		for _, b := range []uint64{KernelNetworkLegacyEnding + 1 + j, 1824, 1825 + j/2, 1825 + j + 1, 2190 + j/2, 60000} {
+			out = append(out, [2]uint64{j, b})
+		}
+	}
+	return out
+}
+
+// history runs one sequence on a fresh node: the last finalized mint is
+// batch-j-1; the (j+1)-batch mint of `batch` is built by the real code, locked
+// and finalized through the real LockMintInput / WriteTransaction /
+// WriteSnapshot path; afterwards the same batch is evaluated again in
+// validate-only mode (what validateMintSnapshot does) and must still be the
+// recorded amount = the sum of the per-batch schedule amounts.
+func (r *c25Run) history(j, batch uint64) {
+	c := r.c
+	b, err := c25NewBatchGap(batch, j)
+	if err != nil {
+		c.Require(false, "history fixture j=%d batch=%d: %v", j, batch, err)
+		return
+	}
+	defer b.m.Close()
+	node := b.m.Node
+	vals := []uint64{10, 70, 2, 10, 1, 71, 10}
+	works := make([][2]uint64, 7)
+	ws := make([]*big.Int, 7)
+	for i, v := range vals {
+		works[i] = c25Pair(4, i, v)
+		ws[i] = c25Weight(works[i])
+	}
+	b.st.prev = works
+	cs := c25Case{N: 7, Mode: "mix", Values: vals, Batch: batch, Ready: [2]int{7, 7}, Gap: j}
+	c.Distinct(fmt.Sprintf("hist|%d|%d", j, batch))
+	key := func(what string) string {
+		if c25Bucket(b.amount) == "tiny" {
+			return what + ":amt=tiny"
+		}
+		return what
+	}
+	possibility := func(ts uint64, validate bool) (uint64, *big.Int, any) {
+		var bb uint64
+		var a common.Integer
+		p := verifmc.Catch(func() { bb, a = node.checkUniversalMintPossibility(ts, validate) })
+		c.Eval(1)
+		if p != nil {
+			return 0, nil, p
+		}
+		return bb, c25Units(a), nil
+	}
+	// 1. fresh: both evaluations give the sum of the skipped batches
+	for _, validate := range []bool{false, true} {
+		cs.Step = fmt.Sprintf("fresh(validateOnly=%v)", validate)
+		bb, a, p := possibility(b.ts, validate)
+		if p != nil || bb != batch || a.Cmp(b.amount) != 0 {
+			c.Violation(key("history:fresh-amount"), fmt.Sprintf("mint of batch %d after %d skipped batches: checkUniversalMintPossibility(validateOnly=%v) = (%d, %v units, panic %v), the sum of the batches is %s", batch, j, validate, bb, a, p, b.amount), cs)
+		}
+	}
+	cs.Step = "build"
+	tx := r.build(b, cs, ws, 7, 7, 7)
+	if tx == nil {
+		c.Outcome("history:no-mint")
+		return
+	}
+	// 2. record it through the real store path
+	if _, err := b.m.Store.VerifFinalize(mcNet7.NodeIds[0], b.ts, true, tx); err != nil {
+		c.Require(false, "history finalize j=%d batch=%d: %v", j, batch, err)
+		return
+	}
+	dist := node.lastMintDistribution()
+	recorded := c25Units(dist.Amount)
+	if dist.Batch != batch || recorded.Cmp(b.amount) != 0 {
+		c.Violation(key("history:recorded-amount"), fmt.Sprintf("recorded distribution is batch %d amount %s, minted batch %d sum %s", dist.Batch, recorded, batch, b.amount), cs)
+	}
+	// 3. later in the same mint window
+	later := b.ts + uint64(30*time.Minute)
+	cs.Step = "again(validateOnly=false)"
+	if bb, a, p := possibility(later, false); p != nil || bb != 0 || a.Sign() != 0 {
+		c.Violation(key("history:same-batch-minted-twice"), fmt.Sprintf("batch %d is already distributed but is offered again: (%d, %v units, panic %v)", batch, bb, a, p), cs)
+	}
+	cs.Step = "again(validateOnly=true)"
+	bb, a, p := possibility(later, true)
+	if p != nil || bb != batch || a.Cmp(recorded) != 0 || a.Cmp(b.amount) != 0 {
+		c.Violation(key("history:validate-amount"), fmt.Sprintf("re-validation of the recorded %d-batch mint of batch %d yields (%d, %v units, panic %v); recorded %s, sum of the batches %s", j+1, batch, bb, a, p, recorded, b.amount), cs)
+	}
+	// 4. the rebuilt transaction: statement oracle against the sum, and identity
+	b.ts, b.validate = later, true
+	cs.Step = "rebuild(validateOnly=true)"
+	re := r.build(b, cs, ws, 7, 7, 7)
+	if re == nil {
+		c.Outcome("history:no-rebuild")
+		c.Violation(key("history:rebuild-refused"), fmt.Sprintf("recorded mint of batch %d can not be rebuilt for validation", batch), cs)
+		return
+	}
+	if re.PayloadHash() != tx.PayloadHash() {
+		c.Violation(key("history:rebuilt-mint-differs"), fmt.Sprintf("the mint rebuilt for validation of batch %d (%d batches) differs from the recorded one: input %s vs %s units", batch, j+1, c25Units(re.Inputs[0].Mint.Amount), c25Units(tx.Inputs[0].Mint.Amount)), cs)
+	}
+	if j == 0 {
+		c.Outcome("history:single-batch-validated")
+	} else {
+		c.Outcome("history:multi-batch-validated")
+	}
+}
+
 // ---------------------------------------------------------------- the check
 
 func TestMC_C25(t *testing.T) {
 	c := verifmc.Start(t, "C25", "exploration")
 	defer c.Finish()
-	c.SetRule("schedule: every batch 1..109500 (thorough: plus first/last batch of every year up to 10001) and every (old,batch) pair with batch-old<=40 inside a window of +-W batches (W=20 quick, 40 thorough) around batch 0+W, the legacy ending 1706 and every year boundary of the positive schedule incl. the boundary into the zero tail. " +
+	// the checked code allocates a short-lived big.Int per arithmetic step;
+	// fewer collections, same results
+	defer debug.SetGCPercent(debug.SetGCPercent(400))
+	c.SetRule("schedule: every batch 1..109500 (thorough: plus first/last batch of every year up to 10001) and every (old,batch) pair with batch-old<=40 inside a window of +-W batches (W=20 quick, 40 thorough) around batch 0+W, the legacy ending 1706 and every year boundary of the positive schedule incl. the boundary into the zero tail (quick: boundaries 1..60, every 6th later one and the last three). " +
 		"distribution: n=7: every assignment of one menu value per node using at most 3 distinct values of the 8-value menu (= all 3^7 assignments of every one of the C(8,3) sub-menus, each vector evaluated once); n in {8,9,10,25,50}: every vector that is constant (each menu value) except on nodes {0,n/2,n-1}, which take every value of the deviant menu. " +
-		"Each vector runs under each (lead,sign) mapping mode (lead=(v,0) sign=(0,v) both=(v,v) alt=even nodes lead, odd nodes sign; quick: alt only) through distributeKernelMintByWorks with 4 kernel bases and through buildUniversalMintTransaction at the batch amounts of 1707, 2000 and 60000 (quick: n=7 vectors with exactly 3 distinct values are built at 1707 only). A case is distinct by (n, mode, vector), (old,batch) or batch")
+		"Each vector runs under each (lead,sign) mapping mode (lead=(v,0) sign=(0,v) both=(v,v) alt=even nodes lead, odd nodes sign, mix=node i%4: (v,0) leader only,(0,v) signer only,(v,v),(v,2v); quick: mix only) through distributeKernelMintByWorks with 4 kernel bases and through buildUniversalMintTransaction at the batch amounts of 1707, 2000 and 60000 (quick: n=7 vectors with exactly 3 distinct values are built at 1707 only). history: for every gap j in {0,1,2,5} skipped batches x 6 batch positions (from the legacy ending, inside a year, straddling 1825 and 2190, right after 1825, 60000): fresh evaluation, real build, real lock+finalize, then re-evaluation and rebuild in validate-only mode. A case is distinct by (n, mode, vector), (old,batch), batch or (gap,batch)")
 	c.Assume("the store wrapper answers ListNodeWorks (mint day and the day before), ListAggregatedRoundSpaceCheckpoints and ReadNodeRoundSpacesForBatch from the enumerated vector; every other store call reaches the real Badger store (the wrapper is tied to the real WriteRoundWork / WriteRoundSpaceAndState path once per n)",
 		"memberships n>7 are installed into the node's state lists (as kernel/removal_consensus_test.go does), not built by pledge/accept transactions",
 		"a node's work is 1.2*lead+sign (the documented weighting); the batch amount is mintBatchSize(batch) because the last finalized mint in the real store is batch-1",
 		"aggregator readiness (enough lead work today, matching space checkpoints) and valid >= threshold are the code's own precondition for minting; refusals outside it are outcomes, not violations")
 
 	lastPositive := c25Schedule(c)
+	complete := !c.Expired("schedule")
+	// coverage / vacuity guards only speak about a run that was not cut short
+	guard := func(cond bool, format string, args ...any) {
+		if complete {
+			c.Require(cond, format, args...)
+		}
+	}
 
 	r := &c25Run{c: c}
 	menu := []uint64{0, 1, 2, 10, 70, 71, 1000000, 1 << 40}
 	deviants := verifmc.Pick(c, []uint64{0, 1, 70, 1 << 40}, menu)
-	modes := verifmc.Pick(c, []int{3}, []int{0, 1, 2, 3})
+	modes := verifmc.Pick(c, []int{4}, []int{0, 1, 2, 3, 4})
 	batches := []uint64{KernelNetworkLegacyEnding + 1, 2000, 60000}
 	ns := []int{8, 9, 10, 25, 50}
 	c.Set("menu", menu)
@@ -930,6 +1095,15 @@ func TestMC_C25(t *testing.T) {
 	// one vector per n through the real WriteRoundWork path
 	for _, n := range append([]int{7}, ns...) {
 		r.tie(n)
+	}
+
+	// history: multi-batch mint recorded, then validated again
+	{
+		hc := c25HistoryCases()
+		c.Set("history_cases_gap_batch", hc)
+		complete = c.ParallelN(len(hc), "history", func(_, i int) { r.history(hc[i][0], hc[i][1]) }) && complete
+		guard(c.OutcomeCount("history:single-batch-validated") == 6 && c.OutcomeCount("history:multi-batch-validated") == 18 || c.Violations() > 0,
+			"history sequences did not complete: single %d multi %d", c.OutcomeCount("history:single-batch-validated"), c.OutcomeCount("history:multi-batch-validated"))
 	}
 
 	// readiness of the aggregators (the code's own precondition): first k nodes
@@ -1016,7 +1190,7 @@ func TestMC_C25(t *testing.T) {
 			}
 		}
 		pos := []int{0, n / 2, n - 1}
-		c.ParallelN(len(nj), fmt.Sprintf("n=%d vectors", n), func(k, ji int) {
+		complete = c.ParallelN(len(nj), fmt.Sprintf("n=%d vectors", n), func(k, ji int) {
 			j := nj[ji]
 			vals := make([]uint64, n)
 			verifmc.Product([]int{L, L}, func(d []int) bool {
@@ -1028,7 +1202,7 @@ func TestMC_C25(t *testing.T) {
 				c.Add(fmt.Sprintf("vectors_n%d", n), 1)
 				return !c.Expired("n>7 vectors")
 			})
-		})
+		}) && complete
 	}
 	for _, x := range ctxs {
 		for _, b := range x.b {
@@ -1053,7 +1227,7 @@ func TestMC_C25(t *testing.T) {
 		}
 	}
 	c.Set("n7_submenus", len(jobs)/len(modes)/3)
-	c.ParallelN(len(jobs), "n=7 vectors", func(k, ji int) {
+	complete = c.ParallelN(len(jobs), "n=7 vectors", func(k, ji int) {
 		j := jobs[ji]
 		var sub []int
 		for i := range menu {
@@ -1078,17 +1252,18 @@ func TestMC_C25(t *testing.T) {
 			c.Add(fmt.Sprintf("vectors_n7_%d_distinct_values", bits.OnesCount(used)), 1)
 			return !c.Expired("n=7 vectors")
 		})
-	})
+	}) && complete
+	complete = complete && !c.Expired("end")
 	for _, x := range ctxs {
 		for _, b := range x.b {
 			c.Require(b.st.other == 0, "store wrapper saw a ListNodeWorks day it does not model")
 		}
 	}
 
-	c.Require(c.OutcomeCount("mint:ok") > 1000 && c.OutcomeCount("nomint:valid<threshold") > 100 && c.OutcomeCount("nomint:aggregators-not-ready") > 10,
+	guard(c.OutcomeCount("mint:ok") > 1000 && c.OutcomeCount("nomint:valid<threshold") > 100 && c.OutcomeCount("nomint:aggregators-not-ready") > 10,
 		"distribution outcomes vacuous: ok %d, valid<thr %d, not-ready %d", c.OutcomeCount("mint:ok"), c.OutcomeCount("nomint:valid<threshold"), c.OutcomeCount("nomint:aggregators-not-ready"))
 	for i, k := range []string{"branch_upper_clamp", "branch_above_average", "branch_lower_clamp", "branch_identity"} {
 		c.Set(k+"_nodes", r.branch[i].Load())
-		c.Require(r.branch[i].Load() > 0, "clamp branch %s never exercised", k)
+		guard(r.branch[i].Load() > 0, "clamp branch %s never exercised", k)
 	}
 }
